@@ -93,7 +93,8 @@ def finish(chk, level="other", extra_cov=None, checker_cmd=None, trusted_base=No
             old.append(f)
         else:
             new.append(f)
-    os.makedirs(os.path.join(VERIF, "evidence"), exist_ok=True)
+    evdir = os.environ.get("SV_EVIDENCE_DIR") or os.path.join(VERIF, "evidence")
+    os.makedirs(evdir, exist_ok=True)
     n_ob = len(chk.obligations)
     n_ok = sum(1 for o in chk.obligations if o[2])
     samples = []
@@ -139,7 +140,7 @@ def finish(chk, level="other", extra_cov=None, checker_cmd=None, trusted_base=No
         "wall_s": round(time.time() - chk.t0, 3),
         "violations": len(new),
     }
-    with open(os.path.join(VERIF, "evidence", chk.pid + ".json"), "w") as fh:
+    with open(os.path.join(evdir, chk.pid + ".json"), "w") as fh:
         json.dump(ev, fh, indent=1)
     for f in old:
         print("KNOWN-FINDING: property=%s %s [%s] %s:%s %s" % (chk.pid, f.key, f.rule, f.file, f.line, f.message))
